@@ -16,7 +16,8 @@ from .c03 import row_seeds
 
 ID = "C12"
 P5 = [[0, 0], [0, 2], [2, 0], [2, 2], [1, 1]]
-QGRID = [[0, 0], [0, 2], [2, 0], [2, 2], [1, 1], [0, 1], [2, 1], [1, 0]]
+QGRID = [[0, 0], [0, 2], [2, 0], [2, 2], [1, 1], [0, 1], [2, 1], [1, 0],
+         [0.9, 0.8], [1.7, 0.4], [0.4, 1.6]]      # fractional queries against an integer history
 CLU = [("c2", 2, False), ("c2mb", 2, True), ("c3", 3, False)]
 TREES = [("default", {}), ("depth1", {"max_depth": 1}), ("leaf2", {"min_samples_leaf": 2})]
 
